@@ -44,5 +44,8 @@ def obsAfterInitial (S : Static) (c : Comp) : Option (List (SimTime × List (Por
 #guard S0.resolve 6 "" "s3" "y" == none
 #guard S0.resolve 7 "" "s3" "y" == some ("d0", "o")
 #guard S0.resolve 8 "" "s3" "y" == some ("d0", "o")
+-- the number of (level, component) pairs: 5 + 2 + 2 + 2 = 11 ≥ 7; this bound (plus slack) is
+-- `Static.resolveFuel`, proved sufficient in `Lemmas/FlattenFuelBound.lean`
+#guard (S0.levels.map (fun L => L.wiring.components.length)).sum == 11
 
 end Tickit.C09Cex
